@@ -1,7 +1,7 @@
 (* C06: analysis is read-only, repeatable, rules do not interfere. Statements only. The theorems take the
    analyses as functions of the rule alone (nviol, viols): that they are - no analysis writes to the file - is
    the hypothesis the correspondence check explores on the real rules. *)
-Require Import List Bool Arith.
+Require Import List Bool Arith Permutation.
 Import ListNotations.
 Require Import Phases PhasesProofs.
 
@@ -23,3 +23,22 @@ Theorem C06_check_deterministic : forall nviol rules allp skip,
   check_rules nviol rules allp skip = check_rules nviol rules allp skip.
 Proof. exact check_deterministic. Qed.
 Print Assumptions C06_check_deterministic.
+
+(* the order in which the rules were loaded does not change which rules an all-phases check analyses *)
+Theorem C06_check_order_irrelevant : forall nviol nviol' skip rules rules', Permutation rules rules' ->
+  Permutation (analysed (check_rules nviol rules true skip)) (analysed (check_rules nviol' rules' true skip)).
+Proof. exact check_order_irrelevant. Qed.
+Print Assumptions C06_check_order_irrelevant.
+
+(* with --all_phases no rule's report switches another rule's analysis on or off *)
+Theorem C06_all_phases_independent_of_counts : forall nviol nviol' skip rules,
+  analysed (check_rules nviol rules true skip) = analysed (check_rules nviol' rules true skip).
+Proof. exact all_phases_independent_of_counts. Qed.
+Print Assumptions C06_all_phases_independent_of_counts.
+
+(* a rule outside the disabled set is still analysed after the set has been disabled *)
+Theorem C06_disable_keeps_others : forall nviol skip D rules r, (forall x, In x rules -> rdisabled x = false) ->
+  D r = false -> In r (analysed (check_rules nviol rules true skip)) ->
+  In (rid r) (map rid (analysed (check_rules nviol (map (disable D) rules) true skip))).
+Proof. exact disable_keeps_others. Qed.
+Print Assumptions C06_disable_keeps_others.
